@@ -207,6 +207,9 @@ PROPS = [
     (['text="q # r; z"'], {'text': 'q # r; z'}),
     (["text='s=t;u'", 'tag={g1}', 'tag={g 2}'], {'text': 's=t;u', 'tag': ['g1', 'g 2']}),
     (['include=0'], {'include': 0}),
+    (['text={r=30"}', 'color=red'], {'text': 'r=30"', 'color': 'red'}),                 # the text ends / begins with another delimiter character
+    (['text={"M51" nucleus}'], {'text': '"M51" nucleus'}),
+    (["text=\"radius 5'\""], {'text': "radius 5'"}),
     (['width=3', 'dash=1'], {'width': 3}),
 ]
 
@@ -241,6 +244,7 @@ def h_program(idx, m):
         lines.append(glob)
     if noise == 1:
         lines.append('# a comment line; with a semicolon')
+        lines.append(['# circle(300,300,25)', '#box(50,50,10,10,0) # color=red', '# ellipse 1 2 3 4 5'][idx % 3])       # commented-out regions stay comments
     texts, expected = gen_line(g, frame, shape, variant)
     test = render(shape, texts, style, sign, props, casing)
     if pre_frame == 2:
